@@ -1,6 +1,6 @@
 (** C02 — the closed form of the mixer output over any commutative semiring (no effects, no
     spatialisation): the sentence of the track documentation as a formula. *)
-From Coq Require Import List Arith Bool PeanoNat Lia Ring Ring_theory.
+From Coq Require Import List Arith Bool PeanoNat Lia Ring Ring_theory Reals.
 From KV Require Import C02.Model C02.ProofsList C02.ProofsRefine.
 Import ListNotations.
 
@@ -225,11 +225,11 @@ Section Closed.
         assert (Z : forall (kts : list (nat * nat)) f, sum_send k i (flat_map (fun kr => map (f kr) (@nil term)) kts) = rO).
         { induction kts as [|x kts IHk]; intros f; cbn [flat_map map app]; [reflexivity | exact (IHk f)]. }
         rewrite Z.
-        assert (Z2 : forall kts ts, (forall t, In t ts -> length (fst t) <= i) ->
-                       sum_send k i (flat_map (fun kr : nat * nat => map (fun tm => (fst kr, push_gain (fun _ => c_rgain c (snd kr)) tm)) ts) kts) = rO).
-        { induction kts as [|x kts IHk]; intros ts Hts; cbn [flat_map]; [reflexivity|]. rewrite sum_send_app, IHk by exact Hts.
-          assert (Z3 : sum_send k i (map (fun tm => (fst x, push_gain (fun _ => c_rgain c (snd x)) tm)) ts) = rO).
-          { unfold sum_send in *. induction ts as [|y ts IHt]; cbn [map fold_right fst snd]; [reflexivity|].
+        assert (Z2 : forall kts ts0, (forall t, In t ts0 -> length (fst t) <= i) ->
+                       sum_send k i (flat_map (fun kr : nat * nat => map (fun tm => (fst kr, push_gain (fun _ => c_rgain c (snd kr)) tm)) ts0) kts) = rO).
+        { induction kts as [|x kts IHk]; intros ts0 Hts; cbn [flat_map]; [reflexivity|]. rewrite sum_send_app, IHk by exact Hts.
+          assert (Z3 : sum_send k i (map (fun tm => (fst x, push_gain (fun _ => c_rgain c (snd x)) tm)) ts0) = rO).
+          { unfold sum_send in *. induction ts0 as [|y ts0 IHt]; cbn [map fold_right fst snd]; [reflexivity|].
             rewrite IHt by (intros; apply Hts; now right).
             destruct (Nat.eqb (fst x) k); [|reflexivity].
             unfold eval_term. cbn [fst snd push_gain]. rewrite nth_overflow by (apply Hts; now left). aring. }
@@ -279,7 +279,7 @@ Section Closed.
       specialize (IH (vadd O acc (apply_gain O c (vadd O (zeros O m) (recv O k em (zeros O m)))))).
       destruct (spec_sends O env m em l _) as [l'' accf]. cbn [fst snd] in *.
       rewrite IH by (unfold vadd; now rewrite (add_into_len O)).
-      unfold vadd. rewrite nth_add_into by lia.
+      unfold vadd. rewrite nth_add_into by (norm; lia).
       rewrite nth_gain by (rewrite (add_into_len O), (zeros_len O); exact Hi).
       rewrite nth_add_into by (rewrite (zeros_len O); exact Hi).
       rewrite S2 by (rewrite (zeros_len O); exact Hi). rewrite !nth_zeros. aring. }
@@ -291,6 +291,10 @@ Section Closed.
     pose proof (spec_sounds_closed env (sm_snds O (sx_main O sx)) m acc2 i) as H2.
     pose proof (spec_sounds_len O env (sm_snds O (sx_main O sx)) m acc2) as Hl3.
     destruct (spec_sounds O env (sm_snds O (sx_main O sx)) m acc2) as [snds' acc3]. cbn [fst snd effects_process] in *.
-    norm. rewrite nth_gain by lia. rewrite H2 by lia. rewrite HS. rewrite S1 by exact Hi. rewrite nth_zeros. aring.
+    norm. rewrite nth_gain by (norm; lia). rewrite H2 by (norm; lia). rewrite HS. rewrite S1 by exact Hi. rewrite nth_zeros. aring.
   Qed.
 End Closed.
+
+Lemma R_semi_ring : semi_ring_theory 0%R 1%R Rplus Rmult eq.
+Proof. constructor; intros; ring. Qed.
+Definition closed_form_holds_R := closed_form_holds R 0%R 1%R Rplus Rmult R_semi_ring.
